@@ -33,6 +33,9 @@ CLAIMED = {
  "C11": ("generated parameter points per family against closed-form reference laws: normalisation, interval coherence (own point probabilities and reference CDF), exact-binomial goodness of fit of draws with re-confirmation, text round-trip, negative list of unknown names",
          "Parameter points from a grid and Hypothesis inside the documented region; per point the object's point probabilities must be non-negative and normalised, 12 generated intervals must equal both the sum/integral of its own point probabilities and the reference F(b)-F(a), N draws must be finite, in the support, follow the reference law (binned exact binomial, alpha 1e-10 Bonferroni, re-confirmed with an independent seed) and have the documented mean; printing and re-reading keeps parameters; 17 unknown or look-alike names must be rejected. Statistical, never a proof of equality.",
          "Trusted: scipy closed-form laws chosen from the documentation; stated tolerances for the integer-sampled Schulz-Zimm density.", "DESIGN.md §2 C11"),
+ "C12": ("generated specifier configurations against a reference linear-system solver (determined / under-determined / contradictory), plus print-reparse round trip",
+         "Configurations of 1-5 components with specifier kinds {absolute, percent, missing last} and optional caller-supplied system mass are generated from a consistent ground truth (exact number spellings) or perturbed into contradiction; a reference solver classifies them. Determined: must be generable with the reference system mass, every component with percentage and mass, sum 100, absolute = percentage of the system mass, written values kept, and str() re-parses with the same masses. Under-determined: generable False without exception. Contradictory: never generable.",
+         "Trusted: gbsv/refmix.py; tolerance 1e-6 relative; degenerate 0 % remainders are outside the domain.", "DESIGN.md §2 C12"),
  "C15": ("breaking operators on generated valid instances with a must-be-rejected oracle (Hypothesis) + byte-level mutation and coverage-guided fuzzing (atheris/libFuzzer) under a deterministic step budget",
          "Generated-input search: 17 breaking operators, each producing an invalid string by construction, are applied at generated positions to valid well-posed molecules of every archetype; the broken string must end in an error at parse or at generate (non-generable for negative weights / missing distribution) - a produced molecule is the violation. Termination of the five constructors is explored with Hypothesis byte mutations of docs/tests strings and two atheris campaigns (seeded and empty corpus) under a line-event budget.",
          "Trusted: each operator's claim that its output is invalid (stated per operator in gbsv/checks/c15.py); termination is bounded liveness: 20000+2000*len line events inside gbigsmiles.", "DESIGN.md §2 C15"),
